@@ -61,6 +61,7 @@ type Interp struct {
 
 	fnInfos    map[*ssa.Function]*fnInfo
 	constCache map[*ssa.Const]value
+	intrCache  map[*ssa.Function]intrinsicFn
 
 	// per-path state
 	ps *PathState
@@ -397,31 +398,22 @@ func (in *Interp) call(caller *frame, pos token.Pos, fn value, args []value) val
 
 func (in *Interp) callSSA(caller *frame, pos token.Pos, fn *ssa.Function, args []value, env []value) value {
 	ps := in.ps
-	name := ""
-	if fn.Parent() == nil || true {
-		if ov, ok := in.eng.overrides[fn]; ok {
-			return in.callSSA(caller, pos, ov, args, nil)
-		}
-		if ext, ok := in.eng.intrinsics[fn]; ok {
-			if ext == nil {
-				// looked up before: none
-			} else {
-				fr := &frame{in: in, caller: caller, fn: fn, callpos: pos}
-				return ext(fr, args)
-			}
+	if ov, ok := in.eng.overrides[fn]; ok {
+		return in.callSSA(caller, pos, ov, args, nil)
+	}
+	ext, cached := in.intrCache[fn]
+	if !cached {
+		name := fn.String()
+		if ex, ok := intrinsicTable[name]; ok {
+			ext = ex
 		} else {
-			name = fn.String()
-			if ex, ok2 := intrinsicTable[name]; ok2 {
-				in.eng.setIntrinsic(fn, ex)
-				fr := &frame{in: in, caller: caller, fn: fn, callpos: pos}
-				return ex(fr, args)
-			} else if ex := genericIntrinsic(fn, name); ex != nil {
-				in.eng.setIntrinsic(fn, ex)
-				fr := &frame{in: in, caller: caller, fn: fn, callpos: pos}
-				return ex(fr, args)
-			}
-			in.eng.setIntrinsic(fn, nil)
+			ext = genericIntrinsic(fn, name)
 		}
+		in.intrCache[fn] = ext
+	}
+	if ext != nil {
+		fr := &frame{in: in, caller: caller, fn: fn, callpos: pos}
+		return ext(fr, args)
 	}
 	if fn.Blocks == nil {
 		panic(engineErr("no code for function: %s (called from %s)", fn.String(), in.where(caller, pos)))
@@ -482,10 +474,16 @@ func (in *Interp) runFrame(fr *frame) {
 			return // normal return
 		}
 		r := recover()
-		switch r.(type) {
-		case pathEnd, engineError:
+		switch x := r.(type) {
+		case pathEnd:
 			fr.block = nil
 			panic(r)
+		case engineError:
+			fr.block = nil
+			if !strings.Contains(x.msg, "\n  at ") {
+				x.msg += "\n  at " + in.where(fr, token.NoPos)
+			}
+			panic(x)
 		case targetPanic:
 		default:
 			// Go runtime error inside the engine: wrap as engine error with location
